@@ -51,7 +51,7 @@ def _c(t, r, w, path, depth):
         return None if isinstance(r, SCALAR_CLASS[k]) else f"{path}: {type(r).__name__} is not {k}"
     if k == "lit":
         try:
-            ok = any(r == m for m in t["v"])
+            ok = any(r == (bytes.fromhex(m["$b"]) if isinstance(m, dict) else m) for m in t["v"])
         except Exception:
             ok = False
         return None if ok else f"{path}: {r!r:.40} is not a declared Literal member"
